@@ -623,6 +623,10 @@ class Connection(object):
         return hash(obj)
 
     def _handle_call(self, obj, args, kwargs=()):  # request handler
+        if type(args) is not tuple or type(kwargs) is not tuple:
+            # netrefs always send a tuple of arguments and a tuple of (name, value) pairs; `*x` / `dict(x)` of anything
+            # else would iterate, or call `.keys()` / `[k]` on, an object of the peer's choosing with no policy check
+            raise TypeError("args must be a tuple and kwargs a tuple of pairs")
         return obj(*args, **dict(kwargs))
 
     def _handle_dir(self, obj):  # request handler
